@@ -141,11 +141,11 @@ func runC07(c *mon.Ctx) {
 	}
 	c.SetAdd("registry_configurations", reg.name)
 	c.Count("config:" + reg.name)
-	c.Rule("one worker process per registry configuration (base profiles only; + P2-based extension; + P2- and P1-based extensions; + 8 further P2-based profiles sharing the JSON profile member and one P2-based profile named by an OID (JSON determinate, CBOR NO-VERDICT); + 4 P2-based and 4 P1-based further profiles). Before the tokens, three claims types without usable profile field are offered (must be refused and leave nothing behind); the register (hook H1) must hold exactly the entries this configuration made, each handing out claims that report its name; an impostor profile is offered under every taken name (must be refused; all later lookups see the original implementation). Tokens = valid and rule-breaking claims-sets of every registered profile, serialised to CBOR and to JSON by the harness, with the profile claim: a registered name / absent / an unregistered name / the name of a profile not registered in this configuration / another base profile's name / a non-text value / present under both profiles' keys / null; plus sets that are valid only under the *other* base profile's rules (P2 with EAN-13 reference, P1 with short or no boot seed). Oracle (determinate cases): the dynamic type and canonical profile of the result of DecodeClaimsFromCBOR/JSON must be those registered under the declared name, P1 when nothing is declared, an error for an unregistered value; the validating decoders accept iff the set is valid under the declared profile's rules and an accepted token's GetProfile() returns the declared name (P1's when none); CBOR and JSON must agree; tokens of the base profiles are also decoded with the type's own unmarshaller into an object from NewClaims (profile pre-set) and compared with the model; NewClaims(p) returns the registered type, reports p, and fails for unregistered names. In CBOR the profile claim is key 265, so a token carrying BOTH 265 and P1's -75000 is judged by 265 (P2 name -> P2 implementation, unregistered -> error); in JSON a quarter of the profile strings are spelled with escape sequences (same value); in a quarter of the CBOR tokens the integer keys are in a longer-than-necessary form. A registered P1-derived profile named under key 265 of a P1-keyed token selects that implementation (valid iff the set is and -75000 is absent); a JSON null profile member on a profile-1 document declares nothing (profile 1 assumed). NO-VERDICT (counted; only 'never accepted under another profile' is asserted): null profile in CBOR / on a P2 document, P1 name under key 265, JSON documents carrying both members with one unregistered, both members present with one unknown, a P1-derived extension in CBOR (not selectable by design: its name lives under -75000). distinct_nontrivial = distinct (configuration, format, base, declaration class, validity class) signatures")
+	c.Rule("one worker process per registry configuration (base profiles only; + P2-based extension; + P2- and P1-based extensions; + 8 further P2-based profiles sharing the JSON profile member and one P2-based profile named by an OID (JSON determinate, CBOR NO-VERDICT); + 4 P2-based and 4 P1-based further profiles). Before the tokens, four claims types without usable profile field (none at all, no JSON tag, a field merely named Profile, a claim whose key merely starts with the profile key's digits) are offered (must be refused and leave nothing behind); the register (hook H1) must hold exactly the entries this configuration made, each handing out claims that report its name; an impostor profile is offered under every taken name (must be refused; all later lookups see the original implementation). Tokens = valid and rule-breaking claims-sets of every registered profile, serialised to CBOR and to JSON by the harness, with the profile claim: a registered name / absent / an unregistered name / the name of a profile not registered in this configuration / another base profile's name / a non-text value / present under both profiles' keys / null; plus sets that are valid only under the *other* base profile's rules (P2 with EAN-13 reference, P1 with short or no boot seed). Oracle (determinate cases): the dynamic type and canonical profile of the result of DecodeClaimsFromCBOR/JSON must be those registered under the declared name, P1 when nothing is declared, an error for an unregistered value; the validating decoders accept iff the set is valid under the declared profile's rules and an accepted token's GetProfile() returns the declared name (P1's when none); CBOR and JSON must agree; tokens of the base profiles are also decoded with the type's own unmarshaller into an object from NewClaims (profile pre-set) and compared with the model; NewClaims(p) returns the registered type, reports p, and fails for unregistered names. In CBOR the profile claim is key 265, so a token carrying BOTH 265 and P1's -75000 is judged by 265 (P2 name -> P2 implementation, unregistered -> error); in JSON a quarter of the profile strings are spelled with escape sequences (same value); in a quarter of the CBOR tokens the integer keys are in a longer-than-necessary form. A registered P1-derived profile named under key 265 of a P1-keyed token selects that implementation (valid iff the set is and -75000 is absent); a JSON null profile member on a profile-1 document declares nothing (profile 1 assumed). NO-VERDICT (counted; only 'never accepted under another profile' is asserted): null profile in CBOR / on a P2 document, P1 name under key 265, JSON documents carrying both members with one unregistered, both members present with one unknown, a P1-derived extension in CBOR (not selectable by design: its name lives under -75000). distinct_nontrivial = distinct (configuration, format, base, declaration class, validity class) signatures")
 	g := model.NewGen(c.Seed*4421 + int64(c.Shard))
 	// claims types without identifiable profile field / without JSON tag on it are
 	// refused - and leave nothing behind (the register check below sees any residue)
-	for di, dp := range []psatoken.IProfile{extprof.NoProfileFieldProfile{Name: "http://example.com/c07/defective/0"}, extprof.NoJSONTagProfile{Name: "http://example.com/c07/defective/1"}, extprof.DeviceProfileProfile{Name: "http://example.com/c07/defective/2"}} {
+	for di, dp := range []psatoken.IProfile{extprof.NoProfileFieldProfile{Name: "http://example.com/c07/defective/0"}, extprof.NoJSONTagProfile{Name: "http://example.com/c07/defective/1"}, extprof.DeviceProfileProfile{Name: "http://example.com/c07/defective/2"}, extprof.PrefixKeyProfile{Name: "http://example.com/c07/defective/3"}} {
 		err := psatoken.RegisterProfile(dp)
 		c.Eval()
 		c.Count("defective-registrations-refused")
@@ -506,6 +506,11 @@ func runC07(c *mon.Ctx) {
 					ms = append(ms, model.Member{Name: "eat-profile", Value: `"http://example.com/unregistered/1"`})
 				case nontext:
 					ms = append(ms, model.Member{Name: "eat-profile", Value: []string{"2", `["` + model.P2Name + `"]`, "true", "{}"}[g.R.Intn(4)]})
+				}
+				if g.R.Intn(8) == 0 {
+					// a member with the EMPTY name is an unknown member like any other
+					ms = append(ms, model.Member{Name: "", Value: []string{`1`, `"PSA_IOT_PROFILE_1"`, `"http://arm.com/psa/2.0.0"`, `null`}[g.R.Intn(4)]})
+					c.Count("json-documents-with-empty-named-member")
 				}
 				if g.R.Intn(3) == 0 {
 					g.R.Shuffle(len(ms), func(x, y int) { ms[x], ms[y] = ms[y], ms[x] })
